@@ -203,3 +203,153 @@ Section Modes.
       repeat split; reflexivity.
   Qed.
 End Modes.
+
+(* ================================================================== 3. model = specification at the reals *)
+(* the reals with an ARBITRARY function in the ln slot *)
+Definition RL (lnf : R -> R) : NumOps := with_ln ROps lnf.
+
+Ltac rops :=
+  unfold half, sq, ofNat in *; unfold zero, one, two in *; unfold RL, with_ln in *;
+  cbn [T add sub mul div opp ofZ leb ltb eqb lnT ROps] in *.
+
+Ltac tR := cbn [T RL with_ln ROps] in *.
+Ltac rlia := tR; lia.
+(* rewrite with a lemma after normalising the carrier [T (RL lnf)] to [R] on both sides *)
+Tactic Notation "rw" uconstr(L) := let X := fresh "X" in epose proof L as X; tR; rewrite X; clear X.
+
+Lemma nth_map_in {A B} (g : A -> B) d d' l i : i < length l -> nth i (map g l) d' = g (nth i l d).
+Proof. intros H. rewrite (nth_indep _ d' (g d)) by (rewrite map_length; exact H). apply map_nth. Qed.
+
+Lemma unmasked_length m : length (unmasked m) = length m - count_true m.
+Proof.
+  rewrite <- (select_length_le m m eq_refl), (select_as_map true m m eq_refl). symmetry. apply map_length.
+Qed.
+
+Local Open Scope R_scope.
+Section AtR.
+  Variable lnf : R -> R.
+  Notation O := (RL lnf).
+  Variable tp : T O.
+  Implicit Types f : fit (T O).
+
+  Lemma sumT_RL (l : list R) : @sumT O l = sumR l.
+  Proof. exact (sumT_sumR l). Qed.
+
+  Lemma okb_lengths f : fit_okb f = true ->
+    length (noise f) = length (data f) /\ length (model f) = length (data f) /\
+    (use_mask f = true -> length (mask f) = length (data f)) /\
+    (use_mask f = false -> (length (mask f) - count_true (mask f))%nat = length (data f)).
+  Proof.
+    unfold fit_okb. intros H. apply andb_prop in H as [H H3]. apply andb_prop in H as [H1 H2].
+    apply Nat.eqb_eq in H1, H2. repeat split; auto; intros U; rewrite U in H3; apply Nat.eqb_eq in H3; exact H3.
+  Qed.
+
+  Lemma fit_data_length f : length (fit_data f) = length (data f).
+  Proof. unfold fit_data. destruct (negb _); [apply map_length | reflexivity]. Qed.
+  Lemma fit_data_nth f i : (i < length (data f))%nat -> nth i (fit_data f) 0 = s_data f i.
+  Proof.
+    intros Hi. unfold fit_data, s_data, at_. destruct (eqb O (sky f) zero) eqn:E; cbn [negb].
+    - rops. rbool. rewrite E. lra.
+    - rewrite (nth_map_in _ 0) by exact Hi. reflexivity.
+  Qed.
+
+  Lemma residual_length f : fit_okb f = true -> length (fit_residual_map f) = length (data f).
+  Proof.
+    intros H. destruct (okb_lengths f H) as (HN & HM & HK & _). unfold fit_residual_map.
+    destruct (use_mask f).
+    - unfold residual_map_with_mask_from. rewrite map2w_length; rewrite ?fit_data_length; auto; rewrite HK; auto.
+    - unfold residual_map_from. rewrite map2_length; rewrite fit_data_length; auto.
+  Qed.
+  Lemma residual_nth f i : fit_okb f = true -> (i < length (data f))%nat ->
+    nth i (fit_residual_map f) 0 = if excluded f i then 0 else s_residual f i.
+  Proof.
+    intros H Hi. destruct (okb_lengths f H) as (HN & HM & HK & _). unfold fit_residual_map, excluded, s_residual. tR.
+    destruct (use_mask f); cbn [andb].
+    - unfold residual_map_with_mask_from. specialize (HK eq_refl).
+      rewrite (nth_map2w _ _ 0 0 0); rewrite ?fit_data_length; try rlia.
+      rewrite fit_data_nth by exact Hi. reflexivity.
+    - unfold residual_map_from. rewrite (nth_map2 _ 0 0 0); rewrite ?fit_data_length; try rlia.
+      rewrite fit_data_nth by exact Hi. reflexivity.
+  Qed.
+
+  Lemma normres_length f : fit_okb f = true -> length (fit_normalized_residual_map f) = length (data f).
+  Proof.
+    intros H. destruct (okb_lengths f H) as (HN & HM & HK & _). pose proof (residual_length f H) as HR.
+    unfold fit_normalized_residual_map. destruct (use_mask f) eqn:U.
+    - unfold normalized_residual_map_with_mask_from. rewrite map2w_length; specialize (HK eq_refl); rlia.
+    - unfold normalized_residual_map_from. rewrite map2_length; rlia.
+  Qed.
+  Lemma normres_nth f i : fit_okb f = true -> (i < length (data f))%nat ->
+    nth i (fit_normalized_residual_map f) 0 = if excluded f i then 0 else s_normres f i.
+  Proof.
+    intros H Hi. destruct (okb_lengths f H) as (HN & HM & HK & _). pose proof (residual_length f H) as HR.
+    pose proof (residual_nth f i H Hi) as RN. unfold fit_normalized_residual_map, s_normres, at_.
+    unfold excluded in *. destruct (use_mask f) eqn:U; cbn [andb] in *.
+    - unfold normalized_residual_map_with_mask_from. specialize (HK eq_refl).
+      rewrite (nth_map2w _ _ 0 0 0); try rlia. tR. rewrite RN.
+      destruct (nth i (mask f) true); reflexivity.
+    - unfold normalized_residual_map_from. rewrite (nth_map2 _ 0 0 0); try rlia. tR. rewrite RN. reflexivity.
+  Qed.
+  Lemma chimap_length f : fit_okb f = true -> length (fit_chi_squared_map f) = length (data f).
+  Proof.
+    intros H. destruct (okb_lengths f H) as (HN & HM & HK & _). pose proof (residual_length f H) as HR.
+    unfold fit_chi_squared_map. destruct (use_mask f) eqn:U.
+    - unfold chi_squared_map_with_mask_from. rewrite map_length, map2w_length; specialize (HK eq_refl); rlia.
+    - unfold chi_squared_map_from. rewrite map_length, map2_length; rlia.
+  Qed.
+  Lemma chimap_nth f i : fit_okb f = true -> (i < length (data f))%nat ->
+    nth i (fit_chi_squared_map f) 0 = if excluded f i then 0 else s_chi f i.
+  Proof.
+    intros H Hi. destruct (okb_lengths f H) as (HN & HM & HK & _). pose proof (residual_length f H) as HR.
+    pose proof (residual_nth f i H Hi) as RN. unfold fit_chi_squared_map, s_chi, s_normres, at_.
+    unfold excluded in *. destruct (use_mask f) eqn:U; cbn [andb] in *.
+    - unfold chi_squared_map_with_mask_from. specialize (HK eq_refl).
+      rewrite (nth_map_in _ 0); [|rewrite map2w_length; rlia].
+      rewrite (nth_map2w _ _ 0 0 0); try rlia. tR. rewrite RN.
+      destruct (nth i (mask f) true); [rops; lra | reflexivity].
+    - unfold chi_squared_map_from. rewrite (nth_map_in _ 0); [|rewrite map2_length; rlia].
+      rewrite (nth_map2 _ 0 0 0); try rlia. tR. rewrite RN. reflexivity.
+  Qed.
+
+  (* the pixels of [fit_pixels] are in range and not excluded *)
+  Lemma fit_pixels_in f i : fit_okb f = true -> In i (fit_pixels f) ->
+    (i < length (data f))%nat /\ excluded f i = false.
+  Proof.
+    intros H Hin. destruct (okb_lengths f H) as (_ & _ & HK & _). unfold fit_pixels, excluded in *.
+    destruct (use_mask f); cbn [andb].
+    - apply unmasked_spec in Hin. destruct Hin as [Hl Hm]. rewrite Hm. specialize (HK eq_refl). split; [lia | reflexivity].
+    - apply in_seq in Hin. split; [lia | reflexivity].
+  Qed.
+  (* summing a full-length map over the fit pixels: by selection (native) or entirely (slim) *)
+  Lemma over_pixels f (l : list R) : fit_okb f = true -> length l = length (data f) ->
+    (if use_mask f then select (mask f) l else l) = map (fun i => nth i l 0) (fit_pixels f).
+  Proof.
+    intros H HL. destruct (okb_lengths f H) as (_ & _ & HK & _). unfold fit_pixels. destruct (use_mask f).
+    - apply select_as_map. rewrite HL. symmetry. apply HK. reflexivity.
+    - rewrite <- HL. apply list_as_map.
+  Qed.
+
+  Lemma chi_squared_is_spec f : fit_okb f = true -> fit_chi_squared f = s_chi_squared f.
+  Proof.
+    intros H. unfold fit_chi_squared, s_chi_squared, chi_squared_with_mask_from, chi_squared_from.
+    pose proof (over_pixels f _ H (chimap_length f H)) as E. tR.
+    transitivity (sumR (if use_mask f then select (mask f) (@fit_chi_squared_map O f) else @fit_chi_squared_map O f)).
+    { destruct (use_mask f); apply sumT_RL. }
+    tR. rewrite E, sumT_RL. f_equal. apply map_ext_in. intros i Hin.
+    destruct (fit_pixels_in f i H Hin) as [Hi Hx]. rw (chimap_nth f i H Hi). rewrite Hx. reflexivity.
+  Qed.
+  Lemma noise_normalization_is_spec f : fit_okb f = true -> fit_noise_normalization tp f = s_noise_normalization tp f.
+  Proof.
+    intros H. destruct (okb_lengths f H) as (HN & _). unfold fit_noise_normalization, s_noise_normalization,
+      noise_normalization_with_mask_from, noise_normalization_from.
+    pose proof (over_pixels f _ H HN) as E. tR.
+    transitivity (sumR (map (@lognorm O tp) (if use_mask f then select (mask f) (noise f) else noise f))).
+    { destruct (use_mask f); apply sumT_RL. }
+    tR. rewrite E, sumT_RL, map_map. reflexivity.
+  Qed.
+  Lemma log_likelihood_is_spec f : fit_okb f = true -> fit_log_likelihood tp f = s_log_likelihood tp f.
+  Proof.
+    intros H. unfold fit_log_likelihood, s_log_likelihood, log_likelihood_from.
+    rewrite chi_squared_is_spec, noise_normalization_is_spec by exact H. rops. lra.
+  Qed.
+End AtR.
